@@ -112,6 +112,7 @@ def opOf (j : Json) : Except String Op := do
             (← modeOf (← (← j.getObjVal? "mode").getStr?)) (boolD j "dirty" false) (boolD j "create" false) (boolD j "wl" false))
   | "checkoutPath" => pure (.checkoutPath (← getNatField j "head"))
   | "pullFF" => pure (.pullFF (← getNatField j "old") (← getNatField j "new") (boolD j "wl" false))
+  | "agentCheckpoint" => pure (.agentCheckpoint (boolD j "rebaseDir" false))
   | s => throw s!"bad op kind {s}"
 
 /-! ### output -/
